@@ -382,7 +382,16 @@ func (o OneOfSchema[KeyType]) findUnderlyingType(data any) (KeyType, Object, err
 	if reflectedType.Kind() == reflect.Map {
 		// Only select the member here: the callers validate the data against it themselves, and they hold
 		// unserialized data, which the data-mode compatibility check of validateMap is not meant for.
-		myKey, mySchemaObj, err := o.selectTypeFromMap(data.(map[string]any))
+		dataMap, isStringMap := data.(map[string]any)
+		if !isStringMap {
+			return nilKey, nil, &ConstraintError{
+				Message: fmt.Sprintf(
+					"Invalid type for one-of type: '%T'. Expected map[string]any or one of the member types.",
+					data,
+				),
+			}
+		}
+		myKey, mySchemaObj, err := o.selectTypeFromMap(dataMap)
 		if err != nil {
 			return nilKey, nil, err
 		}
